@@ -78,6 +78,8 @@ const (
 	RuleResBinding     = "resource-binding" // (j) resource globals bound, others not
 	RuleBindingClash   = "binding-conflict" // (j) one (group,binding) used twice within an entry point
 	RuleNagaValidate   = "naga-validate"    // (k) ir.Validate reports nothing
+	RuleStmtResult     = "stmt-result"      // (h) a statement's result is the result expression of its kind and type; every result expression has exactly one producing statement
+	RuleStmtOperand    = "stmt-operand"     // (h) operand kinds / types of image-store, image-atomic, workgroupUniformLoad, ray-query, subgroup and barrier statements
 )
 
 // internal rule indices (parallel to Rules()).
@@ -106,10 +108,12 @@ const (
 	rResBinding
 	rBindingClash
 	rNagaValidate
+	rStmtResult
+	rStmtOperand
 	nRules
 )
 
-var ruleNames = [nRules]string{RuleHandleRange, RuleHandleBackward, RuleNoAbstract, RuleTypeUnique, RuleExprOperand, RuleExprType, RuleEmitCover, RuleEmitNever, RuleEmitDominates, RuleAfterTerm, RuleReturnPaths, RuleReturnType, RuleBreakContinue, RuleCondType, RuleStore, RuleCall, RuleAtomic, RuleEPStage, RuleEPBinding, RuleEPLocation, RuleEPBuiltin, RuleResBinding, RuleBindingClash, RuleNagaValidate}
+var ruleNames = [nRules]string{RuleHandleRange, RuleHandleBackward, RuleNoAbstract, RuleTypeUnique, RuleExprOperand, RuleExprType, RuleEmitCover, RuleEmitNever, RuleEmitDominates, RuleAfterTerm, RuleReturnPaths, RuleReturnType, RuleBreakContinue, RuleCondType, RuleStore, RuleCall, RuleAtomic, RuleEPStage, RuleEPBinding, RuleEPLocation, RuleEPBuiltin, RuleResBinding, RuleBindingClash, RuleNagaValidate, RuleStmtResult, RuleStmtOperand}
 
 // Rules lists every rule id.
 func Rules() []string { return append([]string(nil), ruleNames[:]...) }
@@ -548,15 +552,16 @@ func statementResult(k ir.ExpressionKind) bool {
 
 type fnValidator struct {
 	*validator
-	fn    *ir.Function
-	where string
-	ep    *ir.EntryPoint
-	ty    *typer
-	n     int
-	cover []int
-	avail []bool
-	scope []ir.ExpressionHandle
-	ctx   []byte // 'B' loop body, 'C' loop continuing, 'S' switch
+	fn     *ir.Function
+	where  string
+	ep     *ir.EntryPoint
+	ty     *typer
+	n      int
+	cover  []int
+	needed []bool // evaluated: used by a statement, operand of an evaluated expression, or inside an Emit range
+	avail  []bool
+	scope  []ir.ExpressionHandle
+	ctx    []byte // 'B' loop body, 'C' loop continuing, 'S' switch
 	// for the continue-aware availability of the continuing block
 	loops []*loopInfo
 }
@@ -667,6 +672,7 @@ func (v *validator) function(fn *ir.Function, where string, ep *ir.EntryPoint) {
 			mark(ir.ExpressionHandle(i))
 		}
 	}
+	f.needed = needed
 	for i := 0; i < f.n; i++ {
 		k := fn.Expressions[i].Kind
 		if k == nil {
@@ -696,6 +702,7 @@ func (v *validator) function(fn *ir.Function, where string, ep *ir.EntryPoint) {
 		}
 	}
 	f.block(fn.Body)
+	f.resultProducers()
 	if fn.Result != nil {
 		b := f.behave(fn.Body)
 		v.check(rReturnPaths, b&bNext == 0, "%s: control can reach the end of the body without returning a value", where)
@@ -1040,6 +1047,8 @@ func (f *fnValidator) stmt(s ir.Statement) {
 		f.call(k)
 	case ir.StmtAtomic:
 		f.atomic(k)
+	default:
+		f.stmtExtra(s)
 	}
 	for _, d := range defs {
 		if !f.check(rHandleRange, int(d) < f.n, "%s: %T result e%d out of range", f.where, what, d) {
